@@ -98,14 +98,39 @@ def failing_statement(r, natives):
     return r.choice(HOST)
 
 
+def line_filler(r, k):
+    """a statement that does nothing but occupy physical lines: what comes after it must still be reported on its own line.
+    Literals broken across lines with interpolation parts before, after and around the break, line breaks inside an
+    interpolation's expression and inside a nested literal, expressions and calls spread over lines, comments that
+    look like the start of a literal."""
+    forms = [
+        ["// a comment"], [""], ["print(\"pad\");"], ["var s%d = 1;" % k],
+        ["var pad%d = \"multi" % k, "line string\";"],
+        ["var pad%d = \"first" % k, "second ${1 + 1} third\";"],
+        ["var pad%d = \"a ${2} b" % k, "c\";"],
+        ["var pad%d = \"a ${2} b" % k, "c ${3} d\";"],
+        ["var pad%d = \"x" % k, "${1} y", "${2} z\";"],
+        ["var pad%d = \"" % k, "", "${k0}\";".replace("k0", "7")],
+        ["var pad%d = \"a ${" % k, "3 + 4", "} b\";"],
+        ["var pad%d = \"o ${\"i" % k, "n ${5}\"} p\";"],
+        ["var pad%d = \"o ${\"i ${6}" % k, "n\"} p ${7}\";"],
+        ["var pad%d = \"tail" % k, "\" + \"${8}\";"],
+        ["var pad%d = [1," % k, "    2,", "    3];"],
+        ["print(", "    \"pad\"", ");"],
+        ["var pad%d = \"one\\ntwo ${9}\";" % k],
+        ["// \"not a literal ${", "// still a comment"],
+        ["var pad%d = \"é" % k, "€ ${\"😀\"}", "\"; // trailing comment"],
+        ["var pad%d = (1," % k, "", "    \"t", "u ${1}\");"],
+    ]
+    return list(r.choice(forms))
+
+
 def program(rng, natives=True):
     r = rng
     L = PRELUDE.strip("\n").split("\n")
     # filler that moves line numbers around
-    for _ in range(r.range(0, 3)):
-        L.append(r.choice(["// a comment", "", "var pad%d = \"multi" % len(L), "print(\"pad\");", "var s%d = 1;" % len(L)]))
-        if L[-1].startswith("var pad"):
-            L.append("line string\";")
+    for _ in range(r.range(0, 4)):
+        L += line_filler(r, len(L))
     depth = r.range(0, 5)
     fail = failing_statement(r, natives)
     caught = r.chance(30)
@@ -118,6 +143,8 @@ def program(rng, natives=True):
     for i, kind in enumerate(kinds):
         body = fail if i == 0 else "return %s;" % call_inner if r.chance(60) else "var r%d = %s;" % (i, call_inner)
         extra = ["var local%d = %d;" % (i, i)] if r.chance(50) else []
+        if r.chance(25):
+            extra += line_filler(r, 1000 + i * 10 + len(L))
         if kind == "fn":
             nm = "fn%d" % i
             L.append("fn %s(a) {" % nm)
@@ -260,6 +287,8 @@ def compile_error_program(rng):
     if pos < len(L) and L[pos - 1].startswith("var m") if pos > 0 else False:
         pos += 1
     L.insert(pos, r.choice(BAD_TOKENS))
+    if r.chance(50):
+        L = [x for _ in range(r.range(1, 3)) for x in line_filler(r, 900 + _)] + L
     for i in range(r.range(0, 3)):
         L.append("print(\"tail %d\");" % i)
     return "\n".join(L) + "\n"
